@@ -3064,3 +3064,20 @@ M("C01", "event-node-opens-its-own-block", WALK,
   "    if previous_node_class.operator is None:\n        logic_node = previous_node_class.outgoing_logic[0]",
   "    if previous_node_class.operator is not None:\n        logic_node = previous_node_class.outgoing_logic[0]",
   "R1.23", "an event node is taken for the gate it owns and vice versa")
+
+# ---- ingestion / graph construction / partition of break events
+M("C01", "graph-edges-from-predecessor-sets", "tel2puml/events.py",
+  "            event_ref[event_type]\n            for event_set in event.event_sets\n",
+  "            event_ref[event_type]\n            for event_set in event.in_event_sets\n",
+  "R1.28", "edges of the event graph run to the predecessors")
+M("C07", "break-partition-path-direction", CUG,
+  "        event for event in loop.break_events if not has_path(\n            graph, root_event, event\n        )",
+  "        event for event in loop.break_events if not has_path(\n            graph, event, root_event\n        )",
+  "R7.22", "break events are classified by whether THEY reach the root")
+M("C07", "end-of-ends-inverted", CLC,
+  "        int(has_path(graph, other_node, node))\n        - int(has_path(graph, node, other_node))",
+  "        int(has_path(graph, node, other_node))\n        - int(has_path(graph, other_node, node))",
+  "R7.22", "the FIRST of several potential end events is taken for the end")
+M("C01", "dummy-start-not-linked", "pv_to_puml/data_ingestion.py",
+  "        dummy_start_event.add_post_event(start_event)\n", "",
+  "R1.28", "the dummy start has no successors")
